@@ -299,3 +299,47 @@ Qed.
 Example replay_rejects :
   replay [LAtom 0%nat SC ALoad 0 5 ORelaxed; LAtom 0%nat SC AAdd 1 0 ORelaxed] = None.
 Proof. vm_compute. reflexivity. Qed.
+
+(** ** containment: a step of thread [u] records only events of [u] (its call, its return -- in particular its
+    panic report); the events recorded during a schedule belong to the threads of the schedule, so whatever
+    happens inside the call of one thread, a panic included, is reported to that thread only *)
+Definition ev_by (u : tid) (ev : event) : Prop :=
+  match ev with ECall t _ | ERet t _ _ => t = u | EFinal _ _ _ => False end.
+
+Lemma ret_ev_by u o : Forall (ev_by u) (ret_ev u o).
+Proof. destruct o as [[r d]|]; cbn [ret_ev]; repeat constructor. Qed.
+
+Lemma step_events_by e c u :
+  exists evs, c_trace (step e c u) = evs ++ c_trace c /\ Forall (ev_by u) evs.
+Proof.
+  unfold step.
+  repeat first
+    [ solve [exists []; split; [reflexivity|constructor]]
+    | solve [eexists; split; [cbn [commit c_trace]; reflexivity
+                             | first [apply ret_ev_by | repeat constructor]]]
+    | progress unfold finish, call
+    | match goal with |- context [match ?x with _ => _ end] => destruct x eqn:? end ].
+Qed.
+
+Theorem events_belong_to_scheduled_threads : forall e s c,
+  exists evs, c_trace (exec e c s) = evs ++ c_trace c /\
+              Forall (fun ev => exists u, In u s /\ ev_by u ev) evs.
+Proof.
+  intros e s. induction s as [|u s IH]; intros c.
+  - exists []. split; [reflexivity|constructor].
+  - rewrite exec_cons. destruct (IH (step e c u)) as (evs & Ht & Hf).
+    destruct (step_events_by e c u) as (evs0 & Ht0 & Hf0).
+    exists (evs ++ evs0). split; [rewrite Ht, Ht0, app_assoc; reflexivity|].
+    apply Forall_app. split.
+    + eapply Forall_impl; [|exact Hf]. intros ev (w & Hw & Hev). exists w. split; [right; exact Hw|exact Hev].
+    + eapply Forall_impl; [|exact Hf0]. intros ev Hev. exists u. split; [left; reflexivity|exact Hev].
+Qed.
+
+Corollary unscheduled_thread_gets_no_event : forall e s c t, ~ In t s ->
+  exists evs, c_trace (exec e c s) = evs ++ c_trace c /\ Forall (fun ev => ~ ev_by t ev) evs.
+Proof.
+  intros e s c t Hn. destruct (events_belong_to_scheduled_threads e s c) as (evs & Ht & Hf).
+  exists evs. split; [exact Ht|]. eapply Forall_impl; [|exact Hf].
+  intros ev (u & Hu & Hev) Hb. apply Hn.
+  destruct ev; cbn [ev_by] in *; try contradiction; subst; exact Hu.
+Qed.
